@@ -52,6 +52,18 @@ def generate(seed, stratum, tier):
     sc['pre_start'] = [['defer', rng.choice(sc['spec']['signals'])]]
   if rng.random() < 0.3:
     sc['rings'] = {'trc': 5}
+  if rng.random() < 0.35:
+    # whatever the clock says (coarse, frozen, stepping back): one record per transition
+    kind = rng.choice(['coarse', 'coarse', 'frozen', 'jump'])
+    sc['clock'] = {'kind': kind, 'q_us': rng.choice([1000, 15600, 1000000])}
+    if kind == 'jump':
+      sc['clock']['jumps'] = {str(rng.randrange(1, 300)): rng.choice([-3600_000_000, -1, 5_000_000]) for _ in range(rng.randrange(1, 3))}
+    # the same transition several times in a row (records that differ in nothing but their time)
+    ev_ops = [o for o in sc['ops'] if o[0] == 'ev']
+    if ev_ops:
+      o = rng.choice(ev_ops)
+      k = sc['ops'].index(o)
+      sc['ops'][k:k] = [list(o) for _ in range(rng.randrange(1, 4))]
   return sc
 
 
